@@ -56,8 +56,8 @@ type world struct {
 	c *kit.Chain
 
 	whale, proposer, deployer, subDeployer, wrapDeployer, treasury kit.Account
-	eoas            []kit.Account // EVM transaction senders (eoas[0] is the whale)
-	vals            []string      // operator addresses of the genesis validators
+	eoas                                                           []kit.Account // EVM transaction senders (eoas[0] is the whale)
+	vals                                                           []string      // operator addresses of the genesis validators
 
 	sys     map[string]*node   // "staking", "gov"
 	routes  map[string][]*node // per system contract: fixture wrappers whose leaf is that contract
